@@ -11,3 +11,30 @@ package gorillamux
 //@   defines result.2 == nil ==> routeWF(result.0)
 //@   preserves @C15 all(openapi3), all(routers), all(gorillamux)
 //@   preserves @C15 globals(openapi3), globals(routers), globals(gorillamux)
+
+// C09: a returned route is a copy of a registered one with the operation the document declares for
+// the request method under the route's path template; an error never comes with a route.
+// routesWF is the router's construction invariant (NewRouter builds one route per mux, each with the
+// document and a path template that exists in it) - stated here, established by NewRouter (listed).
+//@ spec routesWF(r *Router) bool :=
+//@     len(r.muxes) <= len(r.routes)
+//@  && (forall i int :: 0 <= i && i < len(r.routes) ==> r.routes[i] != nil && r.routes[i].Spec != nil && pathOf(r.routes[i].Spec.Paths, r.routes[i].Path) != nil)
+//@  && (forall i int :: 0 <= i && i < len(r.muxes) ==> r.muxes[i].muxRoute != nil)
+// a mux route registered with .Methods(ms) matches only requests whose method is one of ms, and ms
+// are the keys of PathItem.Operations() (assumed of gorilla/mux, listed)
+//@ trusted func (*github.com/gorilla/mux.Route).Match (r, req, match)
+//@   modifies *
+//@   preserves all(openapi3), all(routers), all(gorillamux), http.Request.Method
+//@   ensures result ==> knownMethod(req.Method)
+// the variable updater built by makeServers writes one entry of the variable map it is given
+//@ fnfield varsf (vars)
+//@   modifies *
+//@   preserves all(openapi3), all(routers), all(gorillamux), http.Request.Method
+//@ extend func (*Router).FindRoute
+//@   loop 0 invariant routesWF(r)
+//@   requires @C09 r != nil && req != nil && routesWF(r)
+//@   ensures @C09 [error-means-no-route] result.2 != nil ==> result.0 == nil && result.1 == nil
+//@   ensures @C09 [declared-operation] result.2 == nil ==> result.0 != nil && result.0.Method == req.Method && result.0.Operation == opOf(pathOf(result.0.Spec.Paths, result.0.Path), req.Method)
+//@   ensures @C09 [registered-route] result.2 == nil ==> exists i int :: 0 <= i && i < len(r.routes) && result.0.Path == r.routes[i].Path && result.0.PathItem == r.routes[i].PathItem && result.0.Spec == r.routes[i].Spec && result.0.Server == r.routes[i].Server
+//@   option safety-tags C10
+//@   tag C09
